@@ -96,8 +96,12 @@ Definition then_restore (body : comp) (fin : state -> state) : comp :=
   fun w s => let (w', r) := body w s in
              (w', match r with Ok s' => Ok (fin s') | Exn s' => Exn s' end).
 
-(* @contextmanager: save; set; try: yield finally: restore.  [enter] returns None when the
-   statements before the try raise (nothing has been modified at that point in any manager). *)
+(* @contextmanager: save; try: set; yield finally: restore   (temp_params managers, since the
+   repair of finding C17-2: the assignment of the new values is inside the try), resp.
+   save; set; try: yield finally: restore   (the other managers: their set phase cannot stop half-way).
+   [enter] returns None when the SAVE statements before the try raise (nothing has been modified
+   at that point in any manager).  A set phase that raises half-way is a block whose body is
+   replaced by [raise_here] (see blk_raises). *)
 Definition with_block {A : Type} (enter : state -> option (state * A)) (exit : A -> state -> state)
            (body : comp) : comp :=
   fun w s => match enter s with
@@ -117,7 +121,11 @@ Inductive blk :=
 | BMaskParams (p : amap)                (* AbsPDF.mask_params / VarsManager.mask_params *)
 | BTempUsedRes (res ints : list Z)      (* temp_used_res(names + chain indices) *)
 | BTotalGlsOne                          (* temp_total_gls_one *)
-| BTempConfig (name : Z) (v : val).     (* temp_config(name, v) *)
+| BTempConfig (name : Z) (v : val)      (* temp_config(name, v) *)
+(* the assignment of the new values raises half-way (an unusable value, a too short list): the
+   entries p have been assigned when the exception leaves set_all - inside the try *)
+| BTempParamsBad (p : amap)             (* AbsPDF.temp_params(dict / list): p = the entries before the failing one *)
+| BVmTempParamsBad (p : amap) (rest : list Z).  (* VarsManager.temp_params(dict): rest = names of the failing and the later entries *)
 Inductive saved := SvMap (m : amap) | SvIdx (l : list Z) | SvFlags (l : list bool).
 
 (* for i, j in zip(mask_part, old_mask): i.mask_factor = j *)
@@ -142,7 +150,16 @@ Definition blk_enter (e : env) (b : blk) (s : state) : option (state * saved) :=
       if has_key name (conf s)
       then Some (upd_conf (set_one name v (conf s)) s, SvMap [(name, getv name (conf s))])
       else None
+  | BTempParamsBad p => Some (upd_vars (set_all p (vars s)) s, SvMap (vars s))
+  | BVmTempParamsBad p rest =>   (* old_params is built from ALL keys before anything is assigned *)
+      if forallb (fun k => has_key k (vars s)) (keys p ++ rest)
+      then Some (upd_vars (set_all p (vars s)) s, SvMap (map (fun k => (k, getv k (vars s))) (keys p ++ rest)))
+      else None
   end.
+(* the set phase of the manager raises (inside its try): the with-body is never reached *)
+Definition blk_raises (b : blk) : bool :=
+  match b with BTempParamsBad _ | BVmTempParamsBad _ _ => true | _ => false end.
+Definition raise_here : comp := fun w s => (w, Exn s).
 Definition blk_exit (e : env) (b : blk) (sv : saved) (s : state) : state :=
   match b, sv with
   | BTempParams _, SvMap m => upd_vars (set_all m (vars s)) s
@@ -151,6 +168,8 @@ Definition blk_exit (e : env) (b : blk) (sv : saved) (s : state) : state :=
   | BTempUsedRes _ _, SvIdx l => set_used_chains e l s
   | BTotalGlsOne, SvFlags l => upd_flags (zipset l (mflags s)) s
   | BTempConfig _ _, SvMap m => upd_conf (set_all m (conf s)) s
+  | BTempParamsBad _, SvMap m => upd_vars (set_all m (vars s)) s
+  | BVmTempParamsBad _ _, SvMap m => upd_vars (set_all m (vars s)) s
   | _, _ => s
   end.
 
@@ -161,7 +180,11 @@ Inductive helper :=
 | HPartialWeightBase (combine : list (list Z))       (* BaseAmplitudeModel.partial_weight: set_used_chains(entry) *)
 | HInterference                                      (* partial_weight_interference: combinations(range(n),2) *)
 | HFitFractions (res : list Z) (nb : nat)            (* cal_fitfractions / _no_grad on nb batches *)
-| HAppendInt (res : list Z).                         (* FitFractions.append_int *)
+| HAppendInt (res : list Z)                          (* FitFractions.append_int *)
+| HCachedShapePdf (cs : list Z).                     (* CachedShapeAmplitudeModel.pdf, cs = cached_shape_idx: one density evaluation;
+                                                        old = chains_idx; set_used_chains([i for i in old if i not in cs]);
+                                                        try: build_params_vector finally: set_used_chains(old)
+                                                        (try/finally since the repair of finding C17-3) *)
 
 Definition pairs_lt (n : Z) : list (Z * Z) :=
   flat_map (fun i => map (fun j => (i, j)) (filter (fun j => i <? j) (zrange n))) (zrange n).
@@ -181,6 +204,7 @@ Definition helper_plan (e : env) (h : helper) : nat * nat * list (state -> state
   | HAppendInt res => (O, 1%nat, set_used_res e res [] :: ff_pair_steps e res)  (* since /repo fix: the total refers to the listed
                                                                                    resonances; before, it was evaluated under the selection
                                                                                    active at the call: plan (1, 1, ff_pair_steps e res) *)
+  | HCachedShapePdf cs => (O, 1%nat, [fun s => set_used_chains e (filter (fun i => negb (memz i cs)) (cidx s)) s])
   end.
 
 Inductive prog :=
@@ -225,7 +249,7 @@ Section Run.
                              | (w', Ok s') => run b w' s'
                              | (w', Exn s') => (w', Exn s')
                              end
-    | PWith b body => with_block (blk_enter e b) (blk_exit e b) (run body)
+    | PWith b body => with_block (blk_enter e b) (blk_exit e b) (if blk_raises b then raise_here else run body)
     | PHelper h => run_helper h
     | PFactorIter body =>
         (* DecayGroup.factor_iteration: old = chains_idx; try: for i in old: set_used_chains([i]);
@@ -264,6 +288,16 @@ Section Old.
   (* F4: cal_fitfractions ended with amp.set_used_res(amp.used_res) = all resonances, no finally *)
   Definition old_fitfractions (all_res res : list Z) (nb : nat) : comp :=
     then_restore (run_steps ev nb (set_used_res e res [] :: ff_pair_steps e res)) (set_used_res e all_res []).
+  (* finding C17-2: the temp_params managers assigned the new values BEFORE the try: an assignment
+     that raised half-way left the entries assigned so far (p) in the model *)
+  Definition old_temp_params_bad (p : amap) : comp :=
+    fun w s => (w, Exn (upd_vars (set_all p (vars s)) s)).
+  (* finding C17-3: CachedShapeAmplitudeModel.pdf widened the selection again after
+     build_params_vector without try/finally *)
+  Definition old_cached_shape_pdf (cs : list Z) : comp :=
+    fun w s => then_restore
+      (run_steps ev 1 [fun x => set_used_chains e (filter (fun i => negb (memz i cs)) (cidx x)) x])
+      (set_used_chains e (cidx s)) w s.
 End Old.
 
 (* ---- evaluation helpers for the correspondence ---- *)
